@@ -529,6 +529,25 @@ theorem choiceStream_common_draw (blk : String → Nat → Nat → Nat) (size : 
   | error e => simp [hd] at h
   | ok ds => exact ⟨ds, rfl, by simpa [hd] using h⟩
 
+/-- every KIND of stream handle decides in the same way: on a stream created with `initializes_crn_attributes=True`
+(whose common draw is positional by design, excluded from C02) filter and choice are the same functions of that
+stream's own `getDrawInit`, so every theorem above about `filterProb` / `choiceAll` applies to it unchanged. -/
+theorem init_stream_same_decisions (blk : String → Nat → Nat → Nat) (size : Nat) (ks : String) (idx : List Sim)
+    (ds : List Draw) (hd : getDrawInit blk size ks idx = .ok ds) :
+    (∀ scale probs, idx ≠ [] → filterStreamInit blk size ks scale idx probs =
+        (match broadcast idx probs with
+         | .error e => .error e
+         | .ok ps => .ok (filterProb idx (ds.map fun d => d.2.2 * scale) ps))) ∧
+    (∀ Q n p, choiceStreamInit blk size ks Q n p idx = choiceAll Q n p (ds.map (·.2.2)) (2 ^ 53)) := by
+  constructor
+  · intro scale probs hne
+    unfold filterStreamInit
+    have : idx.isEmpty = false := by cases idx <;> simp_all
+    simp only [this, hd, Bool.false_eq_true, if_false]
+    cases broadcast idx probs <;> rfl
+  · intro Q n p
+    simp [choiceStreamInit, hd]
+
 /-! ### choice: rejections -/
 
 /-- two (or more) placeholders in a row are refused -/
